@@ -805,10 +805,20 @@ SKIP_RECORD_PARSE:
                         return MATRIXSSL_SUCCESS;
                     }
                     psAssert(*c == SSL_RECORD_TYPE_HANDSHAKE); /* Finished */
+                    if (end - c < DTLS_HEADER_LEN)
+                    {
+                        /* Truncated record header: nothing more to skip */
+                        *buf = end;
+                        return DTLS_RETRANSMIT;
+                    }
                     c += 11;                                   /* Skip type, version, epoch to get to length */
                     /* borrow rc since we will be leaving here anyway */
                     rc = *c << 8; c++;
                     rc += *c; c++;
+                    if (rc > end - c)
+                    {
+                        rc = (int32) (end - c); /* Never skip past the datagram */
+                    }
                     c += rc; /* Skip FINISHED message we've already accepted */
                     *buf = c;
                 }
